@@ -74,8 +74,14 @@ def check(ctx: Ctx) -> None:
         MT = ("cmp", "eq", ("sym", "self._execpool.execmodel.backend"), const("main_thread_only"))
         nwait = nspawn = nmt = 0
         seen = set()
+        fsv = repo.func("gateway_base.WorkerGateway.serve")
+        pool_shares_model = any(isinstance(c.func, ast.Name) and c.func.id == "WorkerPool" and c.args and unparse(c.args[0]) == "self.execmodel" for c in repo.calls_in(fsv)) \
+            and sum(1 for n_ in ast.walk(repo.cls("WorkerGateway").node) if isinstance(n_, ast.Attribute) and n_.attr == "_execpool" and isinstance(n_.ctx, ast.Store)) == 1
         for (pth, st) in evs.run(limit=4000):
             mt = st.known.get(MT)
+            if mt is None and pool_shares_model:
+                # the pool is built from the gateway's own execmodel (serve()): self.execmodel is the same object
+                mt = st.known.get(("cmp", "eq", ("sym", "self.execmodel.backend"), const("main_thread_only")))
             if mt is None:
                 # keyed on the event's presence instead (serve() creates it iff the backend is main_thread_only: C14.d)
                 evnone = st.known.get(("cmp", "is", ("sym", EV), ("const", None)))
